@@ -1,8 +1,28 @@
 import DaskModel.Lemmas.ShufflePerm
+import DaskModel.Lemmas.SortValues
+import DaskModel.Lemmas.Dedup
+import DaskModel.Lemmas.Truthful
 /-! # C40 — sorting, shuffling and de-duplication keep exactly the right rows (theorems)
 
-Model: `Model/Shuffle.lean`. `h` (pandas' `hash_object`) is abstract: a row carries its `_partitions`
-value `target = h(key) % npartitions_out`, so "equal keys ⇒ equal target" is the only fact used. -/
+Models: `Model/Shuffle.lean` (task shuffles, `set_partitions_pre`), `Model/SortValues.lean` (`sort_values` /
+`set_index` pipeline, the presorted test of `_calculate_divisions`, `drop_duplicates` via tree / shuffle).
+`h` (pandas' `hash_object`) is abstract: a row carries its `_partitions` value `target = h(key) % npartitions_out`,
+so "equal keys ⇒ equal target" is the only fact used. The per-partition pandas calls (`sort_values`,
+`drop_duplicates`) are parameters / specifications: the sort theorems hold for ANY per-partition function that
+returns a sorted permutation (pandas' default sort is not stable: no tie order is claimed).
+
+Statement clause → theorem
+* "shuffle puts all rows with equal key values in the same output partition" → `task_shuffle_colocated`,
+  `simple_shuffle_colocated`, `task_shuffle_mem_iff`
+* "… and preserves the multiset of rows" → `task_shuffle_perm`, `simple_shuffle_perm` (and exactly, with order:
+  `task_shuffle_exact`, `simple_shuffle_exact`)
+* "sort_values and set_index produce globally ordered results equal to pandas" → `sort_values_globally_ordered`,
+  `sort_values_rows`, `sort_values_keys_eq_reference`, `sort_values_tasks`, `set_index_truthful`,
+  `set_index_tasks_truthful`, `presorted_shortcut_sorted`, `presorted_shortcut_eq_full_path`
+* "drop_duplicates, unique and nunique equal pandas for any partitioning, split_out and shuffle method" →
+  `drop_duplicates_tree_eq`, `drop_duplicates_tasks_perm`, `drop_duplicates_keys_any_shuffle` (distinct keys =
+  `unique` / `nunique`), and FALSE as stated for arrival-order shuffles: `drop_duplicates_arrival_order_refuted`
+  (the recorded finding for `shuffle_method="disk"`). -/
 namespace Dask.C40
 open Dask.Shuffle
 variable {α : Type}
@@ -323,6 +343,246 @@ theorem task_shuffle_mem_iff (parts : List (List (Nat × α))) (nOut k S : Nat) 
   cases hout
   simp only [List.mem_filter, beq_iff_eq]
 
+
+/-! ### sort_values / set_index -/
+section SortSec
+open Dask.SortValues
+variable {β : Type}
+
+/-- **sort_values is globally ordered** — for every frame and partitioning, every division vector with at least two
+    entries (sorted or not: the routing is monotone either way; the model's `bisectRight` is `searchsorted` on
+    sorted divisions, which is what `SortValues._lower` passes), ascending or descending, `na_position` first or
+    last, ANY shuffle that only delivers input rows to the partition named by their `_partitions` value (proved for
+    the task shuffles: `sort_values_tasks`; validated for the disk shuffle) and ANY per-partition sort: the
+    concatenation of the output partitions is sorted in the requested order, NaN placement included. -/
+theorem sort_values_globally_ordered (sh : List (List (Nat × β)) → Nat → List (List (Nat × β)))
+    (sortp : List β → List β) (key : β → Option Nat) (divs : List Nat) (asc naLast : Bool) (parts : List (List β))
+    (h2 : 2 ≤ divs.length)
+    (hsound : ∀ p out, (sh (parts.map (assignPartitions key divs asc naLast)) (divs.length - 1))[p]? = some out →
+      ∀ r ∈ out, r ∈ (parts.map (assignPartitions key divs asc naLast)).flatten ∧ r.1 = p)
+    (hsorted : ∀ l, (sortp l).Pairwise fun a b => keyLe asc naLast (key a) (key b) = true)
+    (hmem : ∀ l r, r ∈ sortp l → r ∈ l) :
+    (sortValuesWith sh sortp key divs asc naLast parts).flatten.Pairwise
+      fun a b => keyLe asc naLast (key a) (key b) = true :=
+  sortValuesWith_sorted sh sortp key divs asc naLast parts h2 hsound hsorted hmem
+
+/-- **sort_values keeps exactly the input rows** (multiset), given a multiset-preserving shuffle and sort -/
+theorem sort_values_rows (sh : List (List (Nat × β)) → Nat → List (List (Nat × β))) (sortp : List β → List β)
+    (key : β → Option Nat) (divs : List Nat) (asc naLast : Bool) (parts : List (List β))
+    (hperm : (sh (parts.map (assignPartitions key divs asc naLast)) (divs.length - 1)).flatten.Perm
+      (parts.map (assignPartitions key divs asc naLast)).flatten)
+    (hsp : ∀ l, (sortp l).Perm l) :
+    (sortValuesWith sh sortp key divs asc naLast parts).flatten.Perm parts.flatten :=
+  sortValuesWith_perm sh sortp key divs asc naLast parts hperm hsp
+
+/-- **equal to pandas (key column)**: any two sorted arrangements of the same rows — dask's result and pandas'
+    `sort_values` of the whole frame — have the same sequence of keys; which of several rows with EQUAL keys comes
+    first is not determined (pandas' default sort is not stable, neither is the disk shuffle) -/
+theorem sort_values_keys_eq_reference (key : β → Option Nat) (asc naLast : Bool) (result reference : List β)
+    (hp : result.Perm reference)
+    (h₁ : result.Pairwise fun a b => keyLe asc naLast (key a) (key b) = true)
+    (h₂ : reference.Pairwise fun a b => keyLe asc naLast (key a) (key b) = true) :
+    result.map key = reference.map key :=
+  sorted_perm_keys_unique key asc naLast result reference hp h₁ h₂
+
+/-- **sort_values with the staged task shuffle and a stable per-partition sort, all hypotheses discharged**:
+    globally ordered, a permutation of the input, and therefore the key column of ANY sorted reference -/
+theorem sort_values_tasks (key : β → Option Nat) (divs : List Nat) (asc naLast : Bool) (k S : Nat)
+    (parts : List (List β)) (h2 : 2 ≤ divs.length) (hk : 0 < k) (hkS : parts.length ≤ k ^ S) (hpos : 0 < parts.length) :
+    ((sortValuesTasks key divs asc naLast k S parts).flatten.Pairwise
+      fun a b => keyLe asc naLast (key a) (key b) = true) ∧
+    (sortValuesTasks key divs asc naLast k S parts).flatten.Perm parts.flatten ∧
+    ∀ reference : List β, reference.Perm parts.flatten →
+      (reference.Pairwise fun a b => keyLe asc naLast (key a) (key b) = true) →
+      (sortValuesTasks key divs asc naLast k S parts).flatten.map key = reference.map key := by
+  have hlenA : (parts.map (assignPartitions key divs asc naLast)).length = parts.length := by simp
+  have htarget := assigned_target_lt key divs asc naLast parts h2
+  have hsorted : (sortValuesTasks key divs asc naLast k S parts).flatten.Pairwise
+      fun a b => keyLe asc naLast (key a) (key b) = true := by
+    apply sortValuesWith_sorted _ _ key divs asc naLast parts h2
+    · intro p out hout r
+      have hp : p < divs.length - 1 := by
+        have := (List.getElem?_eq_some_iff.mp hout).1
+        rwa [taskShuffle_length _ _ k S (by rw [hlenA]; exact hkS)] at this
+      exact (task_shuffle_mem_iff _ _ k S hk (by rw [hlenA]; exact hkS) (by rw [hlenA]; exact hpos) htarget p hp out hout r).mp
+    · exact sortPart_sorted key asc naLast
+    · intro l r hr; exact (sortPart_perm key asc naLast l).mem_iff.mp hr
+  have hperm : (sortValuesTasks key divs asc naLast k S parts).flatten.Perm parts.flatten := by
+    apply sortValuesWith_perm _ _ key divs asc naLast parts
+    · exact task_shuffle_perm _ _ k S hk (by rw [hlenA]; exact hkS) (by rw [hlenA]; exact hpos) htarget
+    · exact sortPart_perm key asc naLast
+  exact ⟨hsorted, hperm, fun ref hr hs => sorted_perm_keys_unique key asc naLast _ ref (hperm.trans hr.symm) hsorted hs⟩
+
+/-- **set_index is truthful** (the C41 predicate `Truthful` of `Lemmas/Truthful.lean`): for non-decreasing
+    divisions that span the data (`divs[0] ≤ key ≤ divs[-1]` for every row — what the quantile divisions and
+    `mins + [maxes[-1]]` guarantee, and what a user must provide), `SetPartition._lower` — `set_partitions_pre`
+    (ascending, NaN last), a shuffle to `len(divisions) - 1` partitions that only delivers input rows to the
+    partition named by `_partitions`, per-partition `set_index` + `sort_index` — returns a frame whose partition `i`
+    holds only keys in `[divs[i], divs[i+1])` (the last one closed), with `len(divs) - 1` partitions. -/
+theorem set_index_truthful (sh : List (List (Nat × β)) → Nat → List (List (Nat × β))) (sortp : List β → List β)
+    (key : β → Nat) (divs : List Nat) (parts : List (List β)) (d0 dl : Nat)
+    (hs : divs.Pairwise (· ≤ ·)) (h2 : 2 ≤ divs.length) (h0 : divs.head? = some d0) (hl : divs.getLast? = some dl)
+    (hspan : ∀ r ∈ parts.flatten, d0 ≤ key r ∧ key r ≤ dl)
+    (hlen : (sh (parts.map (assignPartitions (fun r => some (key r)) divs true true)) (divs.length - 1)).length
+      = divs.length - 1)
+    (hsound : ∀ p out,
+      (sh (parts.map (assignPartitions (fun r => some (key r)) divs true true)) (divs.length - 1))[p]? = some out →
+      ∀ r ∈ out, r ∈ (parts.map (assignPartitions (fun r => some (key r)) divs true true)).flatten ∧ r.1 = p)
+    (hmem : ∀ l r, r ∈ sortp l → r ∈ l) :
+    Dask.Divs.Truthful key divs (sortValuesWith sh sortp (fun r => some (key r)) divs true true parts) := by
+  refine ⟨?_, hs, ?_⟩
+  · unfold sortValuesWith
+    rw [List.length_map, hlen]; omega
+  · intro i p lo hi hp hlo hhi r hr
+    unfold sortValuesWith at hp
+    rw [List.getElem?_map] at hp
+    cases ho : (sh (parts.map (assignPartitions (fun r => some (key r)) divs true true)) (divs.length - 1))[i]? with
+    | none => rw [ho] at hp; cases hp
+    | some o =>
+      rw [ho] at hp
+      simp only [Option.map_some, Option.some.injEq] at hp
+      subst hp
+      obtain ⟨x, hx, rfl⟩ := List.mem_map.mp (hmem _ _ hr)
+      obtain ⟨hin, hxi⟩ := hsound i o ho x hx
+      obtain ⟨htgt, hxin⟩ := mem_assigned (fun r => some (key r)) divs true true parts x hin
+      have hi' : i = setPartitionsPre divs (some (key x.2)) true true := by rw [← htgt, hxi]
+      obtain ⟨_, hin', hge, _⟩ := set_partitions_pre_spec divs (key x.2) true d0 dl hs h2 h0 hl
+      obtain ⟨hd0, hdl⟩ := hspan x.2 hxin
+      have hlenR : (sortValuesWith sh sortp (fun r => some (key r)) divs true true parts).length = divs.length - 1 := by
+        unfold sortValuesWith; rw [List.length_map, hlen]
+      by_cases hlt : key x.2 < dl
+      · obtain ⟨lo', hi'', e1, e2, b1, b2⟩ := hin' hd0 hlt
+        rw [← hi'] at e1 e2
+        rw [hlo] at e1; rw [hhi] at e2
+        cases e1; cases e2
+        exact ⟨b1, Or.inl b2⟩
+      · have hge' : dl ≤ key x.2 := Nat.le_of_not_lt hlt
+        have hi2 := hge hge'
+        rw [← hi'] at hi2
+        clear hin' hge
+        have hlast : divs[divs.length - 1]? = some dl := by
+          rw [← List.getLast?_eq_getElem?]; exact hl
+        have e1 : divs.length - 2 + 1 = divs.length - 1 := by omega
+        have hhi' : hi = dl := by
+          rw [hi2, e1, hlast] at hhi
+          exact (Option.some.inj hhi).symm
+        have hlo' : lo ≤ dl := by
+          rw [hi2] at hlo
+          obtain ⟨h1, rfl⟩ := List.getElem?_eq_some_iff.mp hlo
+          obtain ⟨h3, e3⟩ := List.getElem?_eq_some_iff.mp hlast
+          rw [← e3]
+          have hlt' : divs.length - 2 < divs.length - 1 := by omega
+          exact (List.pairwise_iff_getElem.mp hs) _ _ h1 h3 hlt'
+        have hkeq : key x.2 = dl := Nat.le_antisymm hdl hge'
+        refine ⟨by rw [hkeq]; exact hlo', Or.inr ⟨?_, by rw [hkeq, hhi']; exact Nat.le_refl _⟩⟩
+        rw [hlenR, hi2]; exact e1
+
+/-- … with the staged task shuffle and the model's per-partition sort: every hypothesis about the shuffle discharged -/
+theorem set_index_tasks_truthful (key : β → Nat) (divs : List Nat) (k S : Nat) (parts : List (List β)) (d0 dl : Nat)
+    (hs : divs.Pairwise (· ≤ ·)) (h2 : 2 ≤ divs.length) (h0 : divs.head? = some d0) (hl : divs.getLast? = some dl)
+    (hspan : ∀ r ∈ parts.flatten, d0 ≤ key r ∧ key r ≤ dl)
+    (hk : 0 < k) (hkS : parts.length ≤ k ^ S) (hpos : 0 < parts.length) :
+    Dask.Divs.Truthful key divs (sortValuesTasks (fun r => some (key r)) divs true true k S parts) := by
+  have hlenA : (parts.map (assignPartitions (fun r => some (key r)) divs true true)).length = parts.length := by simp
+  have htarget := assigned_target_lt (fun r => some (key r)) divs true true parts h2
+  apply set_index_truthful _ _ key divs parts d0 dl hs h2 h0 hl hspan
+  · exact taskShuffle_length _ _ k S (by rw [hlenA]; exact hkS)
+  · intro p out hout r
+    have hp : p < divs.length - 1 := by
+      have := (List.getElem?_eq_some_iff.mp hout).1
+      rwa [taskShuffle_length _ _ k S (by rw [hlenA]; exact hkS)] at this
+    exact (task_shuffle_mem_iff _ _ k S hk (by rw [hlenA]; exact hkS) (by rw [hlenA]; exact hpos) htarget p hp out hout r).mp
+  · intro l r hr; exact (sortPart_perm _ true true l).mem_iff.mp hr
+
+/-- **the presorted shortcut is sound**: when `_calculate_divisions` reports `presorted` (after b29bf66: no missing
+    key anywhere, `mins`/`maxes` valid after `bfill`, both sorted in the direction, every partition's max strictly
+    before the next partition's min), sorting every partition where it is gives a globally sorted frame -/
+theorem presorted_shortcut_sorted (key : β → Option Nat) (asc naLast : Bool) (sortp : List β → List β)
+    (parts : List (List β)) (hpre : presortedB asc (parts.map fun p => p.map key) = true)
+    (hsorted : ∀ l, (sortp l).Pairwise fun a b => keyLe asc naLast (key a) (key b) = true)
+    (hmem : ∀ l r, r ∈ sortp l → r ∈ l) :
+    (sortValuesPresorted sortp parts).flatten.Pairwise fun a b => keyLe asc naLast (key a) (key b) = true :=
+  presorted_sorted key asc naLast sortp parts hpre hsorted hmem
+
+/-- **the shortcut returns what the full path returns** (key column; rows as a multiset): for any divisions, any
+    sound multiset-preserving shuffle and any sorted-permutation per-partition sort -/
+theorem presorted_shortcut_eq_full_path (sh : List (List (Nat × β)) → Nat → List (List (Nat × β)))
+    (sortp : List β → List β) (key : β → Option Nat) (divs : List Nat) (asc naLast : Bool) (parts : List (List β))
+    (hpre : presortedB asc (parts.map fun p => p.map key) = true) (h2 : 2 ≤ divs.length)
+    (hsound : ∀ p out, (sh (parts.map (assignPartitions key divs asc naLast)) (divs.length - 1))[p]? = some out →
+      ∀ r ∈ out, r ∈ (parts.map (assignPartitions key divs asc naLast)).flatten ∧ r.1 = p)
+    (hperm : (sh (parts.map (assignPartitions key divs asc naLast)) (divs.length - 1)).flatten.Perm
+      (parts.map (assignPartitions key divs asc naLast)).flatten)
+    (hsorted : ∀ l, (sortp l).Pairwise fun a b => keyLe asc naLast (key a) (key b) = true)
+    (hsp : ∀ l, (sortp l).Perm l) :
+    (sortValuesPresorted sortp parts).flatten.Perm (sortValuesWith sh sortp key divs asc naLast parts).flatten ∧
+    (sortValuesPresorted sortp parts).flatten.map key =
+      (sortValuesWith sh sortp key divs asc naLast parts).flatten.map key := by
+  have hmem : ∀ l r, r ∈ sortp l → r ∈ l := fun l r hr => (hsp l).mem_iff.mp hr
+  have p1 : (sortValuesPresorted sortp parts).flatten.Perm parts.flatten := by
+    unfold sortValuesPresorted
+    have := flatten_map_perm parts sortp id (fun a _ => hsp a)
+    simpa using this
+  have p2 := sortValuesWith_perm sh sortp key divs asc naLast parts hperm hsp
+  have hp := p1.trans p2.symm
+  exact ⟨hp, sorted_perm_keys_unique key asc naLast _ _ hp
+    (presorted_sorted key asc naLast sortp parts hpre hsorted hmem)
+    (sortValuesWith_sorted sh sortp key divs asc naLast parts h2 hsound hsorted hmem)⟩
+
+end SortSec
+
+/-! ### drop_duplicates / unique / nunique -/
+section DedupSec
+open Dask.SortValues
+variable {β : Type}
+
+/-- **drop_duplicates, `split_out = 1` (TreeReduce)**: per-partition `drop_duplicates`, concatenation in partition
+    order, `drop_duplicates` again = pandas on the whole frame — same rows, same order, `keep` first or last -/
+theorem drop_duplicates_tree_eq (first : Bool) (key : β → Nat) (parts : List (List β)) :
+    dedupTree first key parts = dedup first key parts.flatten := dedupTree_eq first key parts
+
+/-- **drop_duplicates, `split_out > 1` with the staged task shuffle** (chunk, `_partitions = hash(key) % n`, staged
+    shuffle incl. resize, per-output `drop_duplicates`): output `p` is exactly pandas' global result restricted to
+    the keys hashing to `p` (rows and order), hence the whole result is pandas' as a multiset — for every frame,
+    partitioning, `keep`, hash function, `n ≥ 1`, `k ≥ 1`, `k^S ≥ npartitions` -/
+theorem drop_duplicates_tasks_perm (first : Bool) (key : β → Nat) (hash : Nat → Nat) (n k S : Nat)
+    (parts : List (List β)) (hn : 0 < n) (hk : 0 < k) (hkS : parts.length ≤ k ^ S) (hpos : 0 < parts.length) :
+    (∀ p, p < n → (dedupShuffleWith (fun ps m => taskShuffle ps m k S) first key hash n parts)[p]? =
+      some ((dedup first key parts.flatten).filter fun r => hash (key r) % n == p)) ∧
+    (dedupShuffleWith (fun ps m => taskShuffle ps m k S) first key hash n parts).flatten.Perm
+      (dedup first key parts.flatten) := by
+  have hlenT : (tagged first key hash n parts).length = parts.length := by simp [tagged]
+  have hsh : ∀ p, p < n → (taskShuffle (tagged first key hash n parts) n k S)[p]? =
+      some ((tagged first key hash n parts).flatten.filter fun r => r.1 == p) := fun p hp =>
+    taskShuffle_getElem?_valid _ n k S hk (by rw [hlenT]; exact hkS) (by rw [hlenT]; exact hpos)
+      (tagged_target_lt first key hash n hn parts) p hp
+  exact ⟨fun p hp => dedupShuffleWith_getElem? _ first key hash n parts p (hsh p hp),
+    dedupShuffleWith_perm _ first key hash n hn parts
+      (taskShuffle_length _ n k S (by rw [hlenT]; exact hkS)) hsh⟩
+
+/-- **unique / nunique / the distinct keys of drop_duplicates, ANY shuffle method**: if every output receives the
+    right rows in whatever order (disk shuffle: arrival order), the key column of the result is pandas' -/
+theorem drop_duplicates_keys_any_shuffle (sh : List (List (Nat × β)) → Nat → List (List (Nat × β))) (first : Bool)
+    (key : β → Nat) (hash : Nat → Nat) (n : Nat) (hn : 0 < n) (parts : List (List β))
+    (hlen : (sh (tagged first key hash n parts) n).length = n)
+    (hsh : ∀ p, p < n → ((sh (tagged first key hash n parts) n).getD p []).Perm
+      ((tagged first key hash n parts).flatten.filter fun r => r.1 == p)) :
+    ((dedupShuffleWith sh first key hash n parts).flatten.map key).Perm ((dedup first key parts.flatten).map key) :=
+  dedupShuffleWith_keys_any sh first key hash n hn parts hlen hsh
+
+/-- **refuted as stated for arrival-order shuffles**: "drop_duplicates equals pandas for any shuffle method" is false
+    for `keep="first"` when the shuffle hands over the pieces in another order (witness: two partitions with the
+    same key, pieces collected in reverse) — the recorded finding for `shuffle_method="disk"` -/
+theorem drop_duplicates_arrival_order_refuted :
+    ¬ ∀ (sh : List (List (Nat × (Nat × Nat))) → Nat → List (List (Nat × (Nat × Nat)))),
+        (∀ ps n, (sh ps n).length = n ∧
+          ∀ p, p < n → ((sh ps n).getD p []).Perm (ps.flatten.filter fun r => r.1 == p)) →
+        ∀ parts : List (List (Nat × Nat)),
+          (dedupShuffleWith sh true (·.1) id 1 parts).flatten.Perm (dedup true (·.1) parts.flatten) :=
+  dedup_arrival_order_refuted
+
+end DedupSec
+
 /-! ### non-vacuity / concrete behaviour -/
 example : routeTuple 3 3 11 (digits 5 3 3) = digits 11 3 3 := by decide
 example : fromDigits 3 (digits 11 3 3) = 11 := by decide
@@ -349,5 +609,46 @@ example : taskShuffle [[(4, 0), (1, 1)], [(0, 2), (4, 3)], [(3, 4), (1, 5)]] 5 2
 -- a target that names no output: reduced modulo n when the count is unchanged, dropped when it changes
 example : taskShuffle [[(7, 0)], [(1, 1)], [(0, 2)]] 3 2 2 = [[(0, 2)], [(7, 0), (1, 1)], []] := by decide
 example : taskShuffle [[(7, 0)], [(1, 1)], [(0, 2)]] 2 2 2 = [[(0, 2)], [(1, 1)]] := by decide
+
+/-! #### sort_values / set_index / drop_duplicates on concrete frames (hypotheses satisfiable, conclusions not void) -/
+section Examples
+open Dask.SortValues
+-- the general theorems `sort_values_globally_ordered` / `sort_values_rows` / `set_index_truthful` take the shuffle as a
+-- parameter with hypotheses; `sort_values_tasks` / `set_index_tasks_truthful` discharge them for the staged task
+-- shuffle (so they are satisfiable), and here is a concrete instance of those: 3 partitions, k = 2, S = 2
+example : (2 ≤ [2, 5, 9].length) ∧ (0 < 2) ∧ ([[(some 7, 0), (none, 1)], [(some 1, 2)], [(some 5, 3), (some 7, 4)]] :
+    List (List (Option Nat × Nat))).length ≤ 2 ^ 2 := by decide
+-- ascending, NaN last: NaN goes to the last partition and to its end; 1 is below the first division
+example : sortValuesTasks (fun r : Option Nat × Nat => r.1) [2, 5, 9] true true 2 2
+    [[(some 7, 0), (none, 1)], [(some 1, 2)], [(some 5, 3), (some 7, 4)]] =
+    [[(some 1, 2)], [(some 5, 3), (some 7, 0), (some 7, 4), (none, 1)]] := by decide
+-- descending, NaN first
+example : sortValuesTasks (fun r : Option Nat × Nat => r.1) [2, 5, 9] false false 2 2
+    [[(some 7, 0), (none, 1)], [(some 1, 2)], [(some 5, 3), (some 7, 4)]] =
+    [[(none, 1), (some 7, 0), (some 7, 4), (some 5, 3)], [(some 1, 2)]] := by decide
+-- set_index: divisions [1, 5, 9] span the keys 1 … 9 (hypotheses of `set_index_tasks_truthful`)
+example : Dask.Divs.Truthful (fun r : Nat × Nat => r.1) [1, 5, 9]
+    (sortValuesTasks (fun r : Nat × Nat => some r.1) [1, 5, 9] true true 2 2 [[(7, 0), (9, 1)], [(1, 2)], [(5, 3), (4, 4)]]) :=
+  set_index_tasks_truthful (fun r : Nat × Nat => r.1) [1, 5, 9] 2 2 [[(7, 0), (9, 1)], [(1, 2)], [(5, 3), (4, 4)]] 1 9
+    (by decide) (by decide) rfl rfl (by decide) (by decide) (by decide) (by decide)
+example : sortValuesTasks (fun r : Nat × Nat => some r.1) [1, 5, 9] true true 2 2 [[(7, 0), (9, 1)], [(1, 2)], [(5, 3), (4, 4)]] =
+    [[(1, 2), (4, 4)], [(5, 3), (7, 0), (9, 1)]] := by decide
+-- `_calculate_divisions`: presorted / equal keys across a boundary / NaN inside a partition (b29bf66) / empty partition
+example : presortedB true [[some 1, some 2], [some 3, some 3], [some 4]] = true := by decide
+example : presortedB true [[some 1, some 3], [some 3, some 3], [some 4]] = false := by decide
+example : presortedB true [[some 1, none], [some 3, some 3], [some 4]] = false := by decide
+example : presortedB true [[some 1, some 2], [], [some 4]] = false := by decide
+example : presortedB false [[some 9, some 7], [], [some 4]] = false := by decide
+example : presortedB false [[some 9, some 7], [some 6], [some 4]] = true := by decide
+example : presortedB false [[some 9, some 7], [some 7], [some 4]] = false := by decide
+-- drop_duplicates: tree path and shuffle path on two partitions sharing keys
+example : dedupTree true (fun r : Nat × Nat => r.1) [[(1, 0), (2, 1), (1, 2)], [(2, 3), (3, 4)]] = [(1, 0), (2, 1), (3, 4)] := by decide
+example : dedupTree false (fun r : Nat × Nat => r.1) [[(1, 0), (2, 1), (1, 2)], [(2, 3), (3, 4)]] = [(1, 2), (2, 3), (3, 4)] := by decide
+example : dedupShuffleWith (fun ps m => taskShuffle ps m 2 1) true (fun r : Nat × Nat => r.1) id 2
+    [[(1, 0), (2, 1), (1, 2)], [(2, 3), (3, 4)]] = [[(2, 1)], [(1, 0), (3, 4)]] := by decide
+-- the refutation witness of `drop_duplicates_arrival_order_refuted`, evaluated: pieces collected in reverse order
+example : dedupShuffleWith (fun ps n => orderedShuffle ps.reverse n) true (fun r : Nat × Nat => r.1) id 1 [[(7, 0)], [(7, 1)]] =
+    [[(7, 1)]] ∧ dedup true (fun r : Nat × Nat => r.1) [(7, 0), (7, 1)] = [(7, 0)] := by decide
+end Examples
 
 end Dask.C40
